@@ -979,7 +979,7 @@ func (h *NtfnsHandler) asyncImport(walletId string) (finish bool, err error) {
 				if rec == nil {
 					logging.CPrint(logging.ERROR, "unexpected error, tx is not relevant",
 						logging.LogFormat{
-							"tx":     rec.Hash.String(),
+							"tx":     msg.TxHash().String(),
 							"block":  blockMeta.Hash.String(),
 							"height": blockMeta.Height,
 						})
